@@ -742,6 +742,7 @@ def gen_classic(rng, tier, seed):
     elif target == 'hfp_hf':
         case['frames'] = _frames(rng, AT_TO_HF, 900, _at_special)
         case['pending'] = rng.random() < 0.4
+        case['gather'] = target == 'hfp_hf' and rng.random() < 0.5
     elif target == 'avdtp':
         case['frames'] = _frames(rng, AVDTP, 600, _avdtp_special)
         case['stateful_prefix'] = rng.random() < 0.4
@@ -996,7 +997,15 @@ def _cl_hfp_hf(sim, world, ca, cv, case, frames):
             line, _, rest = bytes(inbox).partition(b'\r')
             del inbox[:len(line) + 1]
             if mode['answer']:
-                da.write(b'\r\nOK\r\n')
+                if line.strip().startswith(b'AT+COPS?'):
+                    da.write(b'\r\n+COPS: 0,0,"sim"\r\n\r\nOK\r\n')
+                elif mode.get('dup_next'):
+                    # a gateway that sends the final result code twice, in one burst
+                    mode['dup_next'] = False
+                    sim.fault('final_result_code_sent_twice')
+                    da.write(b'\r\nOK\r\n\r\nOK\r\n')
+                else:
+                    da.write(b'\r\nOK\r\n')
     da.sink = on_data
 
     async def ref():
@@ -1031,6 +1040,30 @@ def _cl_hfp_hf(sim, world, ca, cv, case, frames):
         sim.violation_once('ref', f'reference-unanswered:{label}:AT+NREC:{why}:raised={_exc(sim)}', f'a command issued by the HF after the hostile input (peer answers OK): {why}')
         if not t.done():
             t.cancel()
+        return
+    # ---- several commands queued at once at the HF while the gateway duplicates the final result code of the first: the extra
+    # code belongs to no command, and each of the commands behind it is answered with its own response
+    if case.get('gather') and not sim.violations:
+        mode['dup_next'] = True
+
+        async def one(cmd, single):
+            if single:
+                r = await hf.execute_command(cmd, timeout=5.0, response_type=hfp.AtResponseType.SINGLE)
+                return (r.code, [p.decode() if isinstance(p, (bytes, bytearray)) else str(p) for p in r.parameters])
+            return await hf.execute_command(cmd, timeout=5.0)
+        ts = [sim.loop.create_task(one('AT+VGS=5', False)), sim.loop.create_task(one('AT+COPS?', True)), sim.loop.create_task(one('AT+VGM=2', False)),
+              sim.loop.create_task(one('AT+COPS?', True))]
+        st = sim.loop.drive(lambda: all(t.done() for t in ts), vt_budget=40.0, step_budget=600_000)
+        sim.probe('commands_queued_behind_a_duplicated_final_result')
+        for k, t in enumerate(ts):
+            if not t.done():
+                sim.violation_once('gather', f'queued-command-never-concluded:{label}', f'command {k + 1} of 4')
+                t.cancel()
+            elif t.cancelled() or t.exception() is not None:
+                why = 'cancelled' if t.cancelled() else type(t.exception()).__name__
+                sim.violation_once('gather', f'queued-command-answered-wrongly:{label}:{why}', f'command {k + 1} of 4 queued behind a duplicated OK: {why}')
+            elif k in (1, 3) and (t.result()[0] != '+COPS' or '"sim"' not in ''.join(t.result()[1]) and 'sim' not in ''.join(t.result()[1])):
+                sim.violation_once('gather', f'queued-command-answered-wrongly:{label}:content', f'AT+COPS? returned {t.result()}')
 
 
 def _cl_avdtp(sim, world, ca, cv, case, frames):
